@@ -15,11 +15,12 @@ Max2(a, b) == IF a > b THEN a ELSE b
 
 NoObj == [vs |-> "none", bs |-> "none", roots |-> 0, wroots |-> 0, s |-> <<>>, p |-> <<>>, w |-> <<>>,
           armed |-> "yes", blk |-> 0, size |-> 0, align |-> 0, off |-> -1, mblk |-> 0, mlive |-> FALSE,
-          slack |-> 0, infl |-> 0, tainted |-> FALSE, cyc |-> FALSE]
+          slack |-> 0, infl |-> 0, winfl |-> 0, tainted |-> FALSE, cyc |-> FALSE]
 
 MonInit == [cfg |-> [fin |-> TRUE, weak |-> TRUE, dbg |-> TRUE, auto |-> FALSE, clean |-> FALSE, ns |-> 2, np |-> 0, nw |-> 0, run |-> 0],
             objs |-> <<>>, stack |-> <<>>, seen |-> {}, viol |-> <<>>, log |-> <<>>, n |-> 0,
-            bytes |-> 0, blocks |-> <<>>, faulted |-> FALSE, resur |-> FALSE, x |-> 0, lastbf |-> 0]
+            bytes |-> 0, blocks |-> <<>>, faulted |-> FALSE, resur |-> FALSE, x |-> 0, lastbf |-> 0,
+            acfg |-> [auto |-> FALSE, pn |-> 1, pd |-> 10, bt |-> 0]]
 
 Ids(m) == DOMAIN m.objs
 Obj(m, o) == m.objs[o]
@@ -47,6 +48,8 @@ WSumOver(m, S, o) == IF S = {} THEN 0 ELSE LET a == CHOOSE x \in S : TRUE IN
 \* number of Cc pointers to o that currently exist (handles + fields)
 Cnt(m, o) == m.objs[o].roots + SumOver(m, Ids(m), o)
 WCnt(m, o) == m.objs[o].wroots + WSumOver(m, Ids(m), o)
+\* the Weak handed to a running new_cyclic closure also exists
+WCntObs(m, o) == WCnt(m, o) + m.objs[o].winfl
 
 \* ------------------------------------------------------------------ verdicts
 Flag(m, cond, prop, msg) ==
@@ -59,8 +62,8 @@ Depth(m) == Len(m.stack)
 Top(m) == m.stack[Len(m.stack)]
 Push(m, f) == [m EXCEPT !.stack = Append(@, f)]
 Pop(m) == [m EXCEPT !.stack = SubSeq(@, 1, Len(@) - 1)]
-OpFrame(op, o, x0, c) == [k |-> "op", op |-> op, o |-> o, c |-> c, x0 |-> x0, nested |-> 0, traced |-> FALSE, ncb |-> 0, fault |-> FALSE]
-CbFrame(cb, o) == [k |-> "cb", op |-> cb, o |-> o, c |-> <<>>, x0 |-> 0, nested |-> 0, traced |-> FALSE, ncb |-> 0, fault |-> FALSE]
+OpFrame(op, o, x0, c, ac) == [k |-> "op", op |-> op, o |-> o, c |-> c, ac |-> ac, x0 |-> x0, nested |-> 0, traced |-> FALSE, ncb |-> 0, fault |-> FALSE, aux |-> 0]
+CbFrame(cb, o) == [k |-> "cb", op |-> cb, o |-> o, c |-> <<>>, ac |-> <<>>, x0 |-> 0, nested |-> 0, traced |-> FALSE, ncb |-> 0, fault |-> FALSE, aux |-> 0]
 
 CbOpen(m, kinds) == \E i \in DOMAIN m.stack : m.stack[i].k = "cb" /\ m.stack[i].op \in kinds
 \* a collection is running: some open op frame saw a trace callback directly inside it
@@ -106,14 +109,14 @@ OnCall(m0, e) ==
   LET m == IF Depth(m0) = 0 THEN [m0 EXCEPT !.seen = {}] ELSE m0
       op == e.op
       o == Get(e, "o", 0)
-      fr == OpFrame(op, o, Get(e, "x", m.x), e)
+      fr == OpFrame(op, o, Get(e, "x", m.x), e, m.acfg)
       harness(mm, c, msg) == Flag(mm, c, "HARNESS", msg)
       m1 ==
         CASE op \in {"new", "newcyc"} ->
                LET mm == harness(m, Known(m, o) /\ ~(m.objs[o].bs \in {"none", "freed"} /\ m.objs[o].vs \in {"dropped", "none", "moved", "uninit"}), "new of an id still in use")
                IN [mm EXCEPT !.objs = (o :> [NoObj EXCEPT !.vs = IF op = "new" THEN "pending" ELSE "uninit",
                                                           !.s = [i \in 1..m.cfg.ns |-> 0], !.p = [i \in 1..m.cfg.np |-> 0], !.w = [i \in 1..m.cfg.nw |-> 0],
-                                                          !.armed = NewArmed(m), !.cyc = (op = "newcyc")]) @@ @]
+                                                          !.armed = NewArmed(m), !.cyc = (op = "newcyc"), !.winfl = IF op = "newcyc" THEN 1 ELSE 0]) @@ @]
           [] op = "drop" ->
                IF Known(m, o) /\ m.objs[o].roots > 0
                THEN [m EXCEPT !.objs[o].roots = @ - 1, !.objs[o].infl = @ + 1]
@@ -148,7 +151,7 @@ CheckSc(m, sq, i) ==
   LET ob == m.objs[o]
       m1 == Flag(m, ob.vs # "live" \/ ob.bs # "live", "C01", "program-held Cc points to an object whose value/box is gone: " \o ToString(o))
       m2 == Flag(m1, ~ScOk(m, o, t[2]), "C04", "strong_count " \o ToString(t[2]) \o " of object " \o ToString(o) \o " differs from the number of Cc pointers " \o ToString(Cnt(m, o)))
-      m3 == Flag(m2, m.cfg.weak /\ t[3] # WCnt(m, o), "C09", "weak_count " \o ToString(t[3]) \o " of object " \o ToString(o) \o " differs from the number of Weak pointers " \o ToString(WCnt(m, o)))
+      m3 == Flag(m2, m.cfg.weak /\ t[3] # WCntObs(m, o), "C09", "weak_count " \o ToString(t[3]) \o " of object " \o ToString(o) \o " differs from the number of Weak pointers " \o ToString(WCnt(m, o)))
       m4 == Flag(m3, m.cfg.fin /\ ob.armed # "any" /\ t[4] # (ob.armed = "no"), "C05", "already_finalized() of object " \o ToString(o) \o " is wrong")
       m5 == IF ob.armed = "any" THEN [m4 EXCEPT !.objs[o].armed = IF t[4] THEN "no" ELSE "yes"] ELSE m4
   IN CheckSc(m5, sq, i + 1)
@@ -176,7 +179,7 @@ CheckWk(m, sq, i) ==
   IF i > Len(sq) THEN m ELSE
   LET t == sq[i]  o == t[1] IN
   IF ~Known(m, o) THEN CheckWk(Flag(m, TRUE, "HARNESS", "wk of unknown object"), sq, i + 1) ELSE
-  LET m1 == Flag(m, t[3] # WCnt(m, o), "C09", "Weak::weak_count " \o ToString(t[3]) \o " of object " \o ToString(o) \o " differs from the number of Weak pointers " \o ToString(WCnt(m, o)))
+  LET m1 == Flag(m, t[3] # WCntObs(m, o), "C09", "Weak::weak_count " \o ToString(t[3]) \o " of object " \o ToString(o) \o " differs from the number of Weak pointers " \o ToString(WCnt(m, o)))
       m2 == Flag(m1, ~WeakScExpected(m, o, t[2]), "C09", "Weak::strong_count " \o ToString(t[2]) \o " of object " \o ToString(o) \o " is wrong")
   IN CheckWk(m2, sq, i + 1)
 
@@ -209,6 +212,12 @@ CheckObs(m, e) ==
       m7 == Flag(m6, "obspanic" \in DOMAIN e, "C07", "observing the program's own handles panicked")
   IN [m7 EXCEPT !.x = e.x, !.lastbf = IF "walk" \in DOMAIN e THEN Len(e.walk) ELSE @]
 
+\* ------------------------------------------------------------------ policy facts (config.rs)
+Pow2Mult(thr) == \E k \in 0..24 : thr = 100 * (2 ^ k)
+ThresholdOk(thr, bytes, pn, pd) ==
+  /\ Pow2Mult(thr) /\ thr >= 100 /\ thr > bytes
+  /\ (pn > 0 => (bytes * pd > thr * pn \/ 2 * bytes >= thr \/ thr = 100))
+
 \* ------------------------------------------------------------------ ret
 InWalk(e, o) == "walk" \in DOMAIN e /\ o \in Rng(e.walk)
 CanStartCollection == {"collect", "new", "newcyc", "register"}
@@ -237,6 +246,13 @@ OnRet(m00, e) ==
                [m0 EXCEPT !.objs[o].infl = @ - 1, !.objs[o].slack = IF pan THEN @ + 1 ELSE @]
           [] op = "clone" /\ ~pan /\ Known(m0, o) -> [m0 EXCEPT !.objs[o].roots = @ + 1]
           [] op = "new" /\ ~pan /\ Known(m0, o) -> [m0 EXCEPT !.objs[o].roots = @ + 1]
+          [] op = "newcyc" /\ Known(m0, o) ->
+               IF pan THEN [m0 EXCEPT !.objs[o].winfl = 0]
+               ELSE [m0 EXCEPT !.objs[o].roots = @ + 1, !.objs[o].winfl = 0, !.objs[o].vs = IF @ = "uninit" THEN "live" ELSE @,
+                               !.objs[o].w = IF fr.aux = 1 /\ Len(@) >= 1 THEN [@ EXCEPT ![1] = o] ELSE @]
+          [] op = "savew" /\ ~pan /\ Known(m0, o) -> [m0 EXCEPT !.objs[o].wroots = @ + 1]
+          [] op = "wprobe" /\ res = "some" /\ Known(m0, o) -> [m0 EXCEPT !.objs[o].roots = @ + 1]
+          [] op = "setcfg" /\ ~pan -> [m0 EXCEPT !.acfg = [auto |-> fr.c.auto, pn |-> fr.c.pn, pd |-> fr.c.pd, bt |-> fr.c.bt]]
           [] op = "clonef" /\ ~pan ->
                LET t == Get(e, "o", 0) IN
                IF Known(m0, t) THEN [m0 EXCEPT !.objs[t].roots = @ + 1] ELSE Flag(m0, TRUE, "HARNESS", "clonef of unknown target")
@@ -288,6 +304,14 @@ OnRet(m00, e) ==
                LET a1 == Flag(mL, inDestr /\ res # "fagain", "C12", "finalize_again did not panic inside a finalizer or destructor")
                    a2 == Flag(a1, ~inDestr /\ ~collOuter /\ ~CollRunning(m00) /\ res # "ok" /\ e.panic # "fagain", "C12", "finalize_again failed outside a collection")
                IN a2
+          [] op = "wprobe" ->
+               Flag(mL, res # "none" \/ Get(e, "wsc", 0) # 0, "C14", "the Weak given to the new_cyclic closure is not dead inside the closure")
+          [] op = "newcyc" ->
+               LET ob == IF Known(mL, o) THEN mL.objs[o] ELSE NoObj
+                   a1 == Flag(mL, pan /\ ob.bs = "live", "C14", "new_cyclic panicked but the allocation was not released")
+                   a2 == Flag(a1, pan /\ ob.mlive /\ WCnt(mL, o) = 0, "C14", "new_cyclic panicked but the side record was not released")
+                   a3 == Flag(a2, ~pan /\ (ob.vs # "live" \/ ob.bs # "live"), "C14", "new_cyclic returned a pointer to a value that is not alive")
+               IN a3
           [] op \in {"clone", "mark", "downgrade"} /\ ~pan -> Flag(mL, InWalk(e, o), "C11", op \o " left the object in the buffer")
           [] op = "clonef" /\ ~pan -> Flag(mL, InWalk(e, Get(e, "o", 0)), "C11", "clone left the object in the buffer")
           [] op = "upgrade" ->
@@ -308,16 +332,27 @@ OnRet(m00, e) ==
                Flag(mL, "walk" \in DOMAIN e /\ e.bf # -1 /\ mL.objs[o].vs = "live" /\ mL.objs[o].bs = "live" /\ Cnt(mL, o) >= 1 /\ mL.objs[o].slack = 0 /\ ~InWalk(e, o),
                     "C11", "object " \o ToString(o) \o " was not buffered although one of several Ccs to it was dropped")
           [] OTHER -> mL
+      \* ---- automatic collection policy (C15)
+      hasPol == hasx /\ op \in {"new", "newcyc"} /\ "thr" \in DOMAIN fr.c
+      expTrig == hasPol /\ fr.ac.auto /\ ~collOuter /\ fr.c.bf # -1
+                 /\ (fr.c.by > fr.c.thr \/ (fr.ac.bt # 0 /\ fr.c.bf > fr.ac.bt))
+      mM1 == Flag(mM, hasPol /\ own = 1 /\ ~expTrig, "C15", "creating a Cc started a collection although the trigger condition does not hold")
+      mM2 == Flag(mM1, hasPol /\ own = 0 /\ expTrig, "C15", "creating a Cc did not start a collection although the trigger condition holds")
+      adjBytes == IF op = "new" /\ Known(mM, o) /\ mM.objs[o].bs = "live" THEN e.by - mM.objs[o].size ELSE e.by
+      chkThr == hasx /\ ~pan /\ own = 1 /\ op \in {"new", "collect"} /\ "thr" \in DOMAIN e /\ "by" \in DOMAIN e /\ e.thr # -1
+      mM3 == Flag(mM2, chkThr /\ ~ThresholdOk(e.thr, adjBytes, mM.acfg.pn, mM.acfg.pd), "C15",
+                  "byte threshold " \o ToString(IF chkThr THEN e.thr ELSE 0) \o " after a collection violates the policy for " \o ToString(adjBytes) \o " allocated bytes")
       \* ---- depth-0 checks
       clean0 == lim = 0 /\ ~pan /\ ~mM.faulted
-      zero == {x \in Ids(mM) : mM.objs[x].vs = "live" /\ mM.objs[x].bs = "live" /\ ~mM.objs[x].tainted /\ Cnt(mM, x) = 0}
-      mN == Flag(mM, clean0 /\ zero # {}, "C04", "objects without any Cc pointer were not reclaimed when their last owner was dropped: " \o ToString(zero))
-      undead == {x \in Ids(mM) : mM.objs[x].vs = "dropped" /\ mM.objs[x].bs = "live" /\ ~mM.objs[x].tainted}
+      mMx == mM3
+      zero == {x \in Ids(mM3) : mM3.objs[x].vs = "live" /\ mM3.objs[x].bs = "live" /\ ~mM3.objs[x].tainted /\ Cnt(mM3, x) = 0}
+      mN == Flag(mM3, clean0 /\ zero # {}, "C04", "objects without any Cc pointer were not reclaimed when their last owner was dropped: " \o ToString(zero))
+      undead == {x \in Ids(mM3) : mM3.objs[x].vs = "dropped" /\ mM3.objs[x].bs = "live" /\ ~mM3.objs[x].tainted}
       mO == Flag(mN, clean0 /\ undead # {}, "C03", "allocation of a dropped value not released when the call returned: " \o ToString(undead))
-      orphanMeta == {x \in Ids(mM) : mM.objs[x].mlive /\ mM.objs[x].bs = "freed" /\ WCnt(mM, x) = 0}
+      orphanMeta == {x \in Ids(mM3) : mM3.objs[x].mlive /\ mM3.objs[x].bs = "freed" /\ WCnt(mM3, x) = 0}
       mP == Flag(mO, clean0 /\ orphanMeta # {}, "C09", "side record not released although allocation and all Weak pointers are gone: " \o ToString(orphanMeta))
       quiet == clean0 /\ op = "collect" /\ fr.ncb = 0
-      mQ == Flag(mP, quiet /\ Unjustified(mM) # {}, "C02", "unreachable objects survived a quiescent collect_cycles(): " \o ToString(IF quiet THEN Unjustified(mM) ELSE {}))
+      mQ == Flag(mP, quiet /\ Unjustified(mM3) # {}, "C02", "unreachable objects survived a quiescent collect_cycles(): " \o ToString(IF quiet THEN Unjustified(mM3) ELSE {}))
       \* ---- taint after a caught panic: everything unreachable now may leak
       mR == IF lim = 0 /\ pan
             THEN [mQ EXCEPT !.objs = [x \in DOMAIN @ |-> IF x \in Reach(mQ) THEN @[x] ELSE [@[x] EXCEPT !.tainted = TRUE]]]
@@ -362,10 +397,20 @@ OnCb(m, e) ==
     IN Push(BumpNcb(m6), CbFrame(k, o))
   ELSE Push(m0, CbFrame(k, o))
 
+\* a callback made directly by collect_cycles / Cc::new / new_cyclic (before its closure) / register comes from a collection
+MarkHost(m, e) ==
+  IF Depth(m) > 0 /\ Top(m).k = "op" /\ Top(m).op \in {"collect", "new", "newcyc", "register"} /\ e.cb # "closure"
+  THEN SetTopField(m, "traced", TRUE)
+  \* the closure of new_cyclic runs after the automatic collection (if any) has ended
+  ELSE IF Depth(m) > 0 /\ Top(m).k = "op" /\ Top(m).op = "newcyc" /\ e.cb = "closure" THEN SetTopField(m, "traced", FALSE)
+  ELSE m
+
 OnCbx(m, e) ==
   IF Depth(m) = 0 \/ Top(m).k # "cb" \/ Top(m).op # e.cb \/ Top(m).o # e.o
   THEN Flag(m, TRUE, "HARNESS", "cbx does not match the open callback")
-  ELSE LET m1 == Pop(m) IN IF e.panic THEN MarkAll(m1, "fault", TRUE) ELSE m1
+  ELSE LET m1 == Pop(m)
+           m2 == IF e.cb = "closure" /\ ~e.panic /\ Get(e, "sw", FALSE) /\ Depth(m1) > 0 THEN SetTopField(m1, "aux", 1) ELSE m1
+       IN IF e.panic THEN MarkAll(m2, "fault", TRUE) ELSE m2
 
 \* ------------------------------------------------------------------ allocator
 OnAlloc(m, e) ==
@@ -395,10 +440,10 @@ OnDealloc(m, e) ==
     LET unwrapping == Depth(m) > 0 /\ Top(m).k = "op" /\ Top(m).op = "unwrap" /\ Top(m).o = o
         m2 == Flag(m1, o \in Reach(m) /\ ob.vs = "live", "C01", "allocation of reachable object " \o ToString(o) \o " released")
         m3 == Flag(m2, ~(ob.vs \in {"dropped", "uninit"} \/ (ob.vs = "live" /\ unwrapping)), IF ob.cyc /\ ob.vs = "live" THEN "C14" ELSE "C03", "allocation of object " \o ToString(o) \o " released while its value is " \o ob.vs)
-        m4 == Flag(m3, ob.mlive /\ WCnt(m, o) = 0 /\ ~m.faulted, "C09", "side record of object " \o ToString(o) \o " not released with the allocation although no Weak exists")
+        m4 == Flag(m3, ob.mlive /\ WCntObs(m, o) = 0 /\ ~m.faulted, "C09", "side record of object " \o ToString(o) \o " not released with the allocation although no Weak exists")
     IN [m4 EXCEPT !.objs[o].bs = "freed", !.bytes = @ - b.size, !.blocks = rest]
   ELSE
-    LET m2 == Flag(m1, WCnt(m, o) > 0, "C09", "side record of object " \o ToString(o) \o " released while Weak pointers exist")
+    LET m2 == Flag(m1, WCntObs(m, o) > 0 /\ ~(ob.winfl = 1 /\ WCnt(m, o) = 0 /\ ob.bs = "freed"), "C09", "side record of object " \o ToString(o) \o " released while Weak pointers exist")
         unwrapping == Depth(m) > 0 /\ Top(m).k = "op" /\ Top(m).op = "unwrap" /\ Top(m).o = o
         m3 == Flag(m2, ob.bs = "live" /\ ob.vs = "live" /\ ~unwrapping, "C09", "side record of object " \o ToString(o) \o " released while the value is alive")
     IN [m3 EXCEPT !.objs[o].mlive = FALSE, !.objs[o].mblk = 0, !.blocks = rest]
@@ -407,12 +452,12 @@ OnDealloc(m, e) ==
 EndRun(m) == [m EXCEPT !.log = IF DOMAIN m.viol = {} THEN @ ELSE Append(@, [run |-> m.cfg.run, viol |-> m.viol])]
 
 Mon0(m, e) ==
-  CASE e.e = "reset" -> [MonInit EXCEPT !.cfg = [fin |-> e.fin, weak |-> e.weak, dbg |-> Get(e, "dbg", TRUE), auto |-> Get(e, "auto", FALSE), clean |-> Get(e, "clean", FALSE),
+  CASE e.e = "reset" -> [MonInit EXCEPT !.acfg.auto = Get(e, "auto", FALSE), !.cfg = [fin |-> e.fin, weak |-> e.weak, dbg |-> Get(e, "dbg", TRUE), auto |-> Get(e, "auto", FALSE), clean |-> Get(e, "clean", FALSE),
                                                   ns |-> e.ns, np |-> e.np, nw |-> e.nw, run |-> Get(e, "run", 0)],
                                  !.log = EndRun(m).log, !.n = m.n]
     [] e.e = "call" -> OnCall(m, e)
     [] e.e = "ret" -> OnRet(m, e)
-    [] e.e = "cb" -> OnCb(m, e)
+    [] e.e = "cb" -> OnCb(MarkHost(m, e), e)
     [] e.e = "cbx" -> OnCbx(m, e)
     [] e.e = "alloc" -> OnAlloc(m, e)
     [] e.e = "dealloc" -> OnDealloc(m, e)
